@@ -209,6 +209,10 @@ def part_a(ctx, rng, casedir, sit, viol, sigs, big=False):
         # the output of an earlier order_gfa run (other order, other graph version) is ordered again
         stale = {n: (rng.randint(0, 50), rng.randint(0, 5)) for n in g.nodes}
         sit["input_with_stale_bo_no"] += 1
+    if not big and rng.random() < 0.15:
+        # LN / SO / SR written as valid but not shortest-form integers (zero-padded, explicit '+')
+        g.noncanonical_ints = True
+        sit["graphs_with_noncanonical_integer_text"] += 1
     g.write(gpath, rng=rng, shuffle=rng.random() < 0.4, interleave=rng.random() < 0.3, with_seq=seq_in_file, bo_no=stale)
     src = rg.read(gpath)
     named = OC.components_of(g)
